@@ -197,3 +197,14 @@ def agrees_term(case, obs):
     except (ValueError, KeyError, AssertionError) as e:      # an observation the model has no vocabulary for = disagreement
         return "false (* %s *)" % str(e).replace("*", "x")
     return "agrees %s %s" % (case_args(case), exp)
+
+
+def magrees_term(case, obs):
+    """the multi-run model (Engine/BundlerMulti.v) agrees with the observation of run_multi"""
+    try:
+        exp = cl(obs, cobs)
+    except (ValueError, KeyError, AssertionError) as e:
+        return "false (* %s *)" % str(e).replace("*", "x")
+    mops = cl(case["mops"], lambda m: "(%s, %s)" % (cn(m[0]), cop(m[1])))
+    return "magrees %s %s %s %s %s %s" % (cdevs(case["devs"]), cl(case["keys"], cn), cb(case["strict"]),
+                                          cb(case["record"]), mops, exp)
